@@ -653,7 +653,8 @@ func RewindReader(p *load.Program, r *report.Report, opt ResetOptions) {
 		nSeekRets++
 		if len(se) != 1 {
 			okE, whyE = false, "the error returned by Seek is discarded: a failed seek is reported as success"
-		} else if ok, why := errDerives(ret.Results[1], se[0], false); !ok {
+		} else if ok, why := errDerives(ret.Results[1], se[0], ssau.NilAt(se[0], ret.Block())); !ok {
+			// (a literal nil is fine where Seek's error is known to be nil)
 			okE, whyE = false, "after Seek: "+why
 		}
 		if len(sn) != 1 {
